@@ -813,7 +813,9 @@ func TypeConforms(ctx map[ast.Variable]ast.BaseTerm, left ast.BaseTerm, right as
 			if !IsBaseTypeExpression(rightConst) && strings.HasPrefix(leftConst.Symbol, rightConst.Symbol+"/") {
 				return true
 			}
-			return leftConst.Type == ast.NameType && rightConst.Equals(ast.NameBound)
+			// A name prefix type conforms to /name. Base types such as /number
+			// are spelled as names, too, but they are not name prefix types.
+			return leftConst.Type == ast.NameType && !IsBaseTypeExpression(leftConst) && rightConst.Equals(ast.NameBound)
 		}
 	}
 	// fn:Singleton(c) <: T if c is a member of T.
